@@ -391,6 +391,7 @@ func run(c *vf.Ctx) {
 			})
 		}
 	}
+	wg.Wait() // gated schedules first: their (deterministic) replay files are the ones kept per fingerprint
 	// ---- group scenarios
 	nGroup := c.Pick(400, 20000)
 	for lo := 0; lo < nGroup; lo += 100 {
